@@ -224,6 +224,25 @@ def build_vmdk_disk(chain, rng, work, grain=8, hint_mode="same"):
             where = sub["sibling"]
             os.makedirs(where, exist_ok=True)
         lines, hrow = [], {}
+        desc_name = f"disk{i}.vmdk"
+        if is_base:
+            hint = None
+            pcid = "ffffffff"
+        else:
+            nxt_dir = sub["sibling"] if hint_mode == "sibling" else d
+            hint = (f"disk{i + 1}.vmdk" if hint_mode == "same" else f"C:\\vms\\{os.path.basename(nxt_dir)}\\disk{i + 1}.vmdk")
+            pcid = "12345678"
+        if len(parts) == 1 and not sesparse and rng.random() < 0.4:
+            # a monolithic sparse layer: one file, its descriptor (parent CID and hint included) embedded behind the header; the
+            # reader learns about the parent only after it has set up the extent
+            pos = [p + 1 for p in _perm(rng, n)]
+            ents = [("D", pos[c]) if layer[c] == "H" else ("Z", 0) if layer[c] == "Z" else ("U", 0) for c in range(n)]
+            vf, info = enc_vmdk.build_hosted(ents, [True] * (-(-n // 4)), capacity=n * grain, grain=grain, gtes=4, file_id=i, max_pos=n + 1,
+                                             desc=enc_vmdk.descriptor_text([f'RW {n * grain} SPARSE "{desc_name}"'], parent_cid=pcid, parent_hint=hint, cid=f"0000000{i}"))
+            vf.materialise(os.path.join(where, desc_name))
+            names.append(os.path.join(where, desc_name))
+            host.append({c: info["data_base"] + pos[c] * gbytes for c in range(n)})
+            continue
         for k, (lo, hi) in enumerate(parts):
             m = hi - lo
             pos = [p + 1 for p in _perm(rng, m)]
@@ -245,14 +264,6 @@ def build_vmdk_disk(chain, rng, work, grain=8, hint_mode="same"):
             lines.append(f'RW {m * grain} {etype} "{ext_name}"')
             for c in range(m):
                 hrow[lo + c] = info["data_base"] + pos[c] * gbytes
-        desc_name = f"disk{i}.vmdk"
-        if is_base:
-            hint = None
-            pcid = "ffffffff"
-        else:
-            nxt_dir = sub["sibling"] if hint_mode == "sibling" else d
-            hint = (f"disk{i + 1}.vmdk" if hint_mode == "same" else f"C:\\vms\\{os.path.basename(nxt_dir)}\\disk{i + 1}.vmdk")
-            pcid = "12345678"
         text = enc_vmdk.descriptor_text(lines, parent_cid=pcid, parent_hint=hint, cid=f"0000000{i}")
         with open(os.path.join(where, desc_name), "w") as f:
             f.write(text)
@@ -1024,5 +1035,23 @@ def resolution(ctx, thorough):
                         if got != want:
                             ctx.violation({"format": fmt, "fail": "resolution", "realisation": "resolution", "via": via},
                                           {"format": fmt, "fs": f, "via": via, "want": want, "got": got})
+        # a Parallels storage that holds no image for an ancestor the snapshot chain names: that layer cannot be resolved
+        from dissect.hypervisor.disk.hdd import HDD
+        for depth in (1, 2):
+            d = tempfile.mkdtemp(prefix="res-hddx-", dir=work) + ".hdd"
+            g = [enc_hds.DEFAULT_TOP, "{11111111-aaaa-bbbb-cccc-000000000001}", "{22222222-aaaa-bbbb-cccc-000000000002}"]
+            files = {}
+            for k, nm in enumerate(("a.hds", "m.hds", "b.hds")):
+                files[nm], _ = enc_hds.build({"ver": 2, "n": 1, "cb": 1, "bat": {0: 0 if k < 2 else 1}, "size": 1}, cluster_size=4096, P=2, file_id=k + 1)
+            images = [(g[k], "Compressed", nm) for k, nm in enumerate(("a.hds", "m.hds", "b.hds")) if k != depth]
+            enc_hds.write_hdd_dir(d, [(0, 8, images)], [(g[0], g[1]), (g[1], g[2]), (g[2], enc_hds.NULL_GUID)], files, top_guid=g[0])
+            ctx.case(key=("res", "hdd", "ancestor-image-missing", depth), nontrivial=True)
+            try:
+                got = _which_parent(HDD(Path(d)).open().read(512))
+            except Exception:  # noqa: BLE001
+                got = "rejected"
+            if got != "rejected":
+                ctx.violation({"format": "hdd", "fail": "resolution", "realisation": "resolution", "sub": "ancestor-image-missing"},
+                              {"format": "hdd", "missing_depth": depth, "want": "rejected", "got": got})
     finally:
         shutil.rmtree(work, ignore_errors=True)
